@@ -2,4 +2,5 @@ CONSTANT Suite = "addr"
 INIT Init
 NEXT Next
 INVARIANT Debug
+INVARIANT Emit
 CHECK_DEADLOCK FALSE
